@@ -52,6 +52,9 @@ class Ctx(object):
         self.solver.set('timeout', feas_timeout)
         self.solver.set('smt.mbqi', False)
         self.graphs = {}
+        self.views = {}                 # graph name -> ghost View of its CURRENT state
+        self.focus = []                 # node terms for which invariants are instantiated
+        self.on_havoc = None
         self.notes = []
         self.ghost = {}
         self.where = ''
@@ -91,6 +94,35 @@ class Ctx(object):
         r = self.solver.check()
         self.solver.pop()
         return r != z3.unsat
+
+    def mention(self, *terms):
+        """put ground terms into the e-graph so that E-matching patterns can fire on them (touch := \\x. True)"""
+        import z3 as _z
+        for t in terms:
+            f = _z.Function('touch!%s' % t.sort().name().replace(' ', '_'), t.sort(), _z.BoolSort())
+            self.hyps.append(f(t))
+            self.hyp_cats.append(None)
+
+    def inv_pairs(self):
+        """pairs for which invariants are instantiated: consecutive focus nodes two by two, both orientations"""
+        f = self.focus
+        ps = []
+        for i in range(0, len(f) - 1, 2):
+            ps += [(f[i], f[i + 1]), (f[i + 1], f[i])]
+        out = []
+        for p in ps:
+            if not any(p[0].eq(q[0]) and p[1].eq(q[1]) for q in out):
+                out.append(p)
+        return out
+
+    def add_focus(self, terms):
+        before = self.inv_pairs()
+        for t in terms:
+            if t.sort() == Node and not any(t.eq(x) for x in self.focus):
+                self.focus.append(t)
+        new = [p for p in self.inv_pairs() if not any(p[0].eq(q[0]) and p[1].eq(q[1]) for q in before)]
+        if new and getattr(self, 'on_focus', None):
+            self.on_focus(new)
 
     # ---- forking
     def choose(self, n, tag, feas=None):
@@ -1091,6 +1123,8 @@ class Interp(object):
     def setitem(self, c, key, v):
         k = c.kind
         g = getattr(c, 'g', None)
+        if g is not None and k in ('adj', 'row', 'edgedata', 'timeline', 'interval', 'tte', 'tteinner', 'snap'):
+            g.valid = False           # a direct write to the edge representation: Inv(g) is no longer known
         if k in ('adj', 'row') and c.view:
             raise PyRaise('TypeError', 'AdjacencyView does not support item assignment')
         if k == 'adj':
@@ -1161,6 +1195,9 @@ class Interp(object):
         if k == 'nodedict':
             if key.kind != 'node':
                 raise Undecided('node key kind')
+            if g.valid:
+                # a store into _node keeps Inv only if the key set does not change (I1: node <=> row)
+                self.ctx.oblige('typestate.node_store_on_existing_node', g['NodeIn'][key.z], kind='pre')
             if v.kind == 'dict' and not v.pairs:
                 attr = self.engine.empty_attr()
             elif v.kind == 'opaque':
@@ -1205,6 +1242,8 @@ class Interp(object):
     def delitem(self, c, key):
         k = c.kind
         g = getattr(c, 'g', None)
+        if g is not None and k in ('adj', 'row', 'edgedata', 'timeline', 'interval', 'tte', 'tteinner', 'snap', 'nodedict'):
+            g.valid = False
         if k == 'tteinner':
             ek = to_evk(key)
             if self.ctx.branch(z3.Not(g['Ev'][c.k][ek]), 'KeyError(event)'):
@@ -1300,6 +1339,9 @@ class Interp(object):
         if k == 'module':
             f = self.engine.module_attr(recv.name, name, fr, self)
             return self.call_value(f, argv, kwv, fr, node)
+        if k == 'super' and name == '__init__':
+            from .engine import _super_init
+            return _super_init(self, recv, argv, kwv)
         m = getattr(self, 'm_%s_%s' % (k, name), None)
         if m is None:
             from . import seqs
@@ -1349,6 +1391,7 @@ class Interp(object):
     def m_tteinner_pop(self, inner, argv, kwv):
         ek = to_evk(argv[0])
         g = inner.g
+        g.valid = False
         if len(argv) < 2:
             if self.ctx.branch(z3.Not(g['Ev'][inner.k][ek]), 'KeyError(event pop)'):
                 raise PyRaise('KeyError', 'event pop')
@@ -1357,6 +1400,7 @@ class Interp(object):
 
     def m_timeline_append(self, tl, argv, kwv):
         g, r = tl.g, tl.r
+        g.valid = False
         v = argv[0]
         s, e = self.interval_of(v)
         n = g['Len'][r]
